@@ -246,33 +246,51 @@ def calls_part(run, scratch, cfg):
                 # the same call through the apps (smith_waterman for local, align_to_ref for global), which take the model
                 # as constructor arguments: the penalties and scores GIVEN are the model, whatever their values
                 zero = "zero-penalty" if 0 in (d, e) else "positive-penalties"
-                try:
-                    coll = make_unaligned_seqs({"s1": a, "s2": b}, moltype="dna")
-                    if mode == "local":
-                        app = get_app("smith_waterman", score_matrix=S, insertion_penalty=d, extension_penalty=e)
-                        out = app(coll)
-                        arows = out.to_dict()
-                        ascore = out.info["align_params"]["sw_score"]
+                # how the model reaches the app (AlignCalls.tla Vias): the score table handed over explicitly, or - when the
+                # content IS the documented default of the apps - left out, the molecular type given by name or as an object
+                failed = False
+                # (Vias of AlignCalls.tla, evaluated for the content the object has at THIS call of the history)
+                for via in (sorted(rec.get("vias", ["explicit"]) if c == rec["model"] else (["explicit", "default:name", "default:object"] if c == 1 else ["explicit"]))):
+                    if via == "explicit":
+                        kwm, vtag = {"score_matrix": S}, ""
                     else:
-                        app = get_app("align_to_ref", ref_seq="s1", score_matrix=S, insertion_penalty=d, extension_penalty=e)
-                        out = app(coll)
-                        arows = out.to_dict()
-                        ascore = None
-                except Exception as ex:
-                    run.fail(f"calls:{mode}:app:{zero}:raised", dict(case, exception=repr(ex)), what="alignment app raised")
-                    break
-                ncalls += 1
-                agot = (arows["s1"], arows["s2"])
-                case2 = dict(case, app_returned=agot, app_reported_score=ascore)
-                if agot not in byrows:
-                    run.fail(f"calls:{mode}:app:{zero}:rows-not-a-path", case2, what="rows returned by the alignment app are not an alignment path of the inputs")
-                    break
-                if ascore is not None and abs(scores[agot] - ascore) > TOL * max(1.0, abs(ascore)):
-                    case2["score_of_returned_path_under_given_model"] = scores[agot]
-                    run.fail(f"calls:{mode}:app:{zero}:reported-score-not-for-given-model", case2, what="the app's reported score is not the score of its path under the scores and penalties it was given")
-                    break
-                if best > scores[agot] + TOL * max(1.0, abs(best)):
-                    run.fail(f"calls:{mode}:app:{zero}:not-optimal-for-given-model", case2, what="the app's alignment is not optimal for the scores and penalties it was given")
+                        from cogent3 import get_moltype
+
+                        kwm = {"moltype": "dna" if via == "default:name" else get_moltype("dna")}
+                        vtag = f":{via}"
+                    try:
+                        coll = make_unaligned_seqs({"s1": a, "s2": b}, moltype="dna")
+                        if mode == "local":
+                            app = get_app("smith_waterman", insertion_penalty=d, extension_penalty=e, **kwm)
+                            out = app(coll)
+                            arows = out.to_dict()
+                            ascore = out.info["align_params"]["sw_score"]
+                        else:
+                            app = get_app("align_to_ref", ref_seq="s1", insertion_penalty=d, extension_penalty=e, **kwm)
+                            out = app(coll)
+                            arows = out.to_dict()
+                            ascore = None
+                    except Exception as ex:
+                        run.fail(f"calls:{mode}:app{vtag}:{zero}:raised", dict(case, exception=repr(ex)), what="alignment app raised")
+                        failed = True
+                        break
+                    ncalls += 1
+                    agot = (arows["s1"], arows["s2"])
+                    case2 = dict(case, app_returned=agot, app_reported_score=ascore, model_given=via)
+                    if agot not in byrows:
+                        run.fail(f"calls:{mode}:app{vtag}:{zero}:rows-not-a-path", case2, what="rows returned by the alignment app are not an alignment path of the inputs")
+                        failed = True
+                        break
+                    if ascore is not None and abs(scores[agot] - ascore) > TOL * max(1.0, abs(ascore)):
+                        case2["score_of_returned_path_under_given_model"] = scores[agot]
+                        run.fail(f"calls:{mode}:app{vtag}:{zero}:reported-score-not-for-given-model", case2, what="the app's reported score is not the score of its path under the scores and penalties it was given")
+                        failed = True
+                        break
+                    if best > scores[agot] + TOL * max(1.0, abs(best)):
+                        run.fail(f"calls:{mode}:app{vtag}:{zero}:not-optimal-for-given-model", case2, what="the app's alignment is not optimal for the scores and penalties it was given (or documents as its default)")
+                        failed = True
+                        break
+                if failed:
                     break
     return len(seen), ncalls
 
